@@ -1499,7 +1499,7 @@ class NasuWriter(Writer):
         _nwg_param['filename'] = pathlib.Path(self.filename).stem + '_NASU.pgm'
 
         with PGMCompiler(**_nwg_param) as G:
-            for nwg in self.obj_list:
+            for nwg in flatten(self.obj_list):
                 for shift in nwg.adj_scan_order:
                     _nwg_fab_time += nwg.fabrication_time
                     dx, dy, dz = nwg.adj_scan_shift
